@@ -37,8 +37,11 @@ def gen_lop(rng, modelled_only):
         return ('pop', rng.randint(-2, 2))
     if r < 0.68:
         return ('clear',)
-    if r < 0.80:
+    if r < 0.72:
         return ('extend', tuple(rng.randrange(len(POOL)) if rng.random() < 0.15 else rng.randrange(VALID) for _ in range(rng.randint(0, 3))))
+    if r < 0.80:
+        # valid URLs first, an invalid one last: the call is rejected half-way
+        return ('extend', tuple(rng.randrange(VALID) for _ in range(rng.randint(1, 2))) + (rng.randrange(VALID, len(POOL)),))
     if r < 0.92 or modelled_only:
         return ('setitem', rng.randint(-2, 3), u)
     return ('setslice', rng.randint(0, 2), rng.randint(0, 3), tuple(rng.randrange(VALID) for _ in range(rng.randint(0, 3))))
@@ -166,6 +169,18 @@ def run_impl(ops, held):
             res = ('err', sl.canon_exc(e))
         out.append((res, snapshot(t)))
         viol = check_state(t)
+        if viol is None and held:
+            # a list object obtained earlier must still mirror the metainfo (also after an operation on it was rejected)
+            md = t.metainfo
+            try:
+                if 'webseeds' in refs and [str(u) for u in refs['webseeds']] != (md.get('url-list') or []):
+                    viol = ('held-list-differs-from-metainfo', f"held webseeds {[str(u) for u in refs['webseeds']]} but url-list={md.get('url-list')!r} after {op}")
+                elif 'httpseeds' in refs and [str(u) for u in refs['httpseeds']] != (md.get('httpseeds') or []):
+                    viol = ('held-list-differs-from-metainfo', f"held httpseeds {[str(u) for u in refs['httpseeds']]} but httpseeds={md.get('httpseeds')!r} after {op}")
+                elif 'tr' in refs and [[str(u) for u in tier] for tier in refs['tr']] != [[str(u) for u in tier] for tier in t.trackers]:
+                    viol = ('held-list-differs-from-metainfo', f"held tiers {[[str(u) for u in tier] for tier in refs['tr']]} but the metainfo gives {[[str(u) for u in tier] for tier in t.trackers]} after {op}")
+            except Exception as e:  # noqa
+                viol = ('read-back-fails:' + type(e).__name__, f'reading a held list raised {e!r}')
         out[-1] = out[-1] + (viol,)
     return out
 
